@@ -41,6 +41,25 @@ func init() {
 			n = f.n
 		}
 		allocK1(rep, m, r, nS, nS*2, nS*4)
+		pagesK1(rep, m, r, nS/2)
+		// recovery model vs. the open path on the images of random histories
+		for i := 0; i < n/4+5; i++ {
+			hr := rand.New(rand.NewSource(r.Int63()))
+			cfg := gen.PickConfig(hr)
+			prof := gen.DefaultProfile()
+			prof.Readers = false
+			e, err := engine.RunHistory(cfg, gen.History(hr, prof), nil)
+			if err != nil {
+				continue
+			}
+			if e.Tx != nil {
+				e.Apply(engine.Op{Kind: "commit"})
+			}
+			e.Apply(engine.Op{Kind: "reopen"})
+			recoverK1(rep, m, e, "after-history")
+			rep.Evaluations++
+			e.Close()
+		}
 		for i := 0; i < n; i++ {
 			hseed := r.Int63()
 			hr := rand.New(rand.NewSource(hseed))
